@@ -2,7 +2,7 @@
    The extracted OCaml driver and the in-Coq replays both call only this. *)
 From Coq Require Import List ZArith NArith Bool.
 From AG Require Import Base.Val Base.Sort Str.MetaVar Str.AnB Str.Substring
-  Rewrite.Indent Rewrite.Template Tree.Tree Tree.Wf Match.MatchNode Match.Prefilter Rule.Rule Rule.Kinds Rule.Traversal Rule.Scan Rule.Eval Rule.Sem Rewrite.Splice Rewrite.EditDoc Front.JsonPrint Front.Lsp Front.Select.
+  Rewrite.Indent Rewrite.Template Tree.Tree Tree.Wf Match.MatchNode Match.Prefilter Rule.Rule Rule.Kinds Rule.Traversal Rule.Scan Rule.Eval Rule.Sem Rewrite.Splice Rewrite.EditDoc Front.JsonPrint Front.Lsp Front.Select Front.Load.
 Import ListNotations.
 Local Open Scope Z_scope.
 
@@ -198,6 +198,65 @@ Definition case_scan (v : val) : val :=
                                 end) ids);
        VL (map vN (res_unused res)) ].
 
+(* 48: rule-document acceptance.  doc = (core (opt ((id core) ...)) (global ids));
+   core = (rule ((name rule) ...) ((var rule) ...) (opt ((key source (rewriter ids)) ...)) (opt (template ((rule stop) ...))))
+   -> (0) accepted | (1 kind) | (1 10 kind-inside-the-rewriter) *)
+Definition g_stop (d : nat) (s : val) : stopby :=
+  match gZ (gNth 0 s) with
+  | 0%Z => SNeighbor
+  | 1%Z => SEnd
+  | _ => SRule (g_rule d (gNth 1 s))
+  end.
+Definition g_core (d : nat) (v : val) : core :=
+  let named (x : val) := gList (fun p => (gS (gNth 0 p), g_rule d (gNth 1 p))) x in
+  {| k_rule := g_rule d (gNth 0 v);
+     k_utils := named (gNth 1 v);
+     k_cons := named (gNth 2 v);
+     k_trans := gOpt (gList (fun t => (gS (gNth 0 t), {| tf_source := gS (gNth 1 t); tf_rewriters := gList gS (gNth 2 t) |}))) (gNth 3 v);
+     k_fix := gOpt (fun f => {| fx_template := gS (gNth 0 f);
+                                fx_expansions := gList (fun x => (g_rule d (gNth 0 x), g_stop d (gNth 1 x))) (gNth 1 f) |}) (gNth 4 v) |}.
+Fixpoint lerr_code (e : lerr) : list val :=
+  match e with
+  | ECyclicUtil _ => [VZ 1]
+  | EUndefinedUtil _ => [VZ 2]
+  | EUndefVarCons _ => [VZ 3]
+  | EAlreadyDefined _ => [VZ 4]
+  | EUndefVarTrans _ => [VZ 5]
+  | ECyclicTrans _ => [VZ 6]
+  | EMalformedVar _ => [VZ 7]
+  | EUndefVarFix _ => [VZ 8]
+  | ENoFixInRewriter _ => [VZ 9]
+  | ERewriter _ e' => VZ 10 :: lerr_code e'
+  | EUndefRewriter _ => [VZ 11]
+  | ENoKinds => [VZ 12]
+  | EFuelOut => [VZ 99]
+  end.
+Definition case_load (v : val) : val :=
+  let d := vdepth v in
+  let doc := {| d_core := g_core d (gNth 0 v);
+                d_rewriters := gOpt (gList (fun p => (gS (gNth 0 p), g_core d (gNth 1 p)))) (gNth 1 v);
+                d_globals := gList gS (gNth 2 v) |} in
+  match load doc with
+  | LOk _ => VL [VZ 0]
+  | LErr e => VL (VZ 1 :: lerr_code e)
+  end.
+(* 49: ((key (deps...)) ...) -> TopologicalSort::get_order: (0) | (1)   (the order itself and the key named
+       depend on hash-map iteration in the implementation; what they satisfy is C12_topo_sound / _complete) *)
+Definition case_topo (v : val) : val :=
+  match get_order (gList (fun p => (gS (gNth 0 p), gList gS (gNth 1 p))) v) with
+  | OrderOk _ => VL [VZ 0]
+  | OrderCycle _ => VL [VZ 1]
+  | OrderFuel => FUEL_ERR
+  end.
+(* 50: ((id core) ...) -> parse_global_utils' ordering of global utility rules: (0) | (1) *)
+Definition case_globals (v : val) : val :=
+  let d := vdepth v in
+  match get_order (global_depmap (gList (fun p => (gS (gNth 0 p), g_core d (gNth 1 p))) v)) with
+  | OrderOk _ => VL [VZ 0]
+  | OrderCycle _ => VL [VZ 1]
+  | OrderFuel => FUEL_ERR
+  end.
+
 Definition run_case (fid : Z) (v : val) : val :=
   match fid with
   | 1 => v_metavar (extract_meta_var (gN (gNth 0 v)) (gS (gNth 1 v)))
@@ -227,6 +286,9 @@ Definition run_case (fid : Z) (v : val) : val :=
   | 34 => case_wf v
   | 35 => case_kinds v
   | 36 => case_scan v
+  | 48 => case_load v
+  | 49 => case_topo v
+  | 50 => case_globals v
   (* 41: (src start end before after) -> display_context: (leading-start trailing-end lines-above) *)
   | 41 => let d := display_context (gS (gNth 0 v)) (gNat (gNth 1 v)) (gNat (gNth 2 v)) (gNat (gNth 3 v)) (gNat (gNth 4 v)) in
           VL [vNat (dc_lead d); vNat (dc_trail d); vNat (dc_offset d)]
